@@ -193,6 +193,24 @@ mod harnesses {
         }
     }
 
+    /// C12: a write through the references handed out by raw_entry_mut().from_key(k).or_insert(..) is seen by later lookups,
+    /// whether the key sits in the old table (about to be carried) or in the main table
+    #[kani::proof]
+    #[kani::unwind(10)]
+    fn raw_or_insert_write_through_split() {
+        let mut m = split_map(0);
+        let st = m.verif_state();
+        kani::cover!(st.old.is_some(), "resize in flight");
+        assert!(st.old.is_some());
+        let k: u8 = if kani::any() { old_table_key(&m) } else { main_table_key(&m) };
+        {
+            let (_, v) = m.raw_entry_mut().from_key(&k).or_insert(k, 0);
+            *v = 77;
+        }
+        assert!(m.get(&k) == Some(&77));
+        assert!(m.len() == 8);
+    }
+
     /// C08: iterating a split map yields each element once, with exact length at every step, and is fused
     #[kani::proof]
     #[kani::unwind(12)]
